@@ -6,6 +6,7 @@
 package vsync
 
 import (
+	"sort"
 	"math/rand"
 	"fmt"
 	"reflect"
@@ -604,6 +605,20 @@ func Sleep(d time.Duration) {
 	}
 	S.cur.wake = S.Clock + d
 	point(Op{Kind: KSleep, Site: site(2)})
+}
+
+// SortedKeys returns the string keys of a map: sorted under the scheduler (replayable), in Go's random map order
+// in passthrough mode (what the uninstrumented code does).
+func SortedKeys(m interface{}) []string {
+	v := reflect.ValueOf(m)
+	keys := make([]string, 0, v.Len())
+	for _, k := range v.MapKeys() {
+		keys = append(keys, k.String())
+	}
+	if me() != nil {
+		sort.Strings(keys)
+	}
+	return keys
 }
 
 // RandInt31n replaces math/rand.Int31n in instrumented code: a fixed answer under the scheduler (so that a
